@@ -1009,6 +1009,11 @@ def plan(prop, tier, seed, known):
         for i in range(2 if q else 12):
             jobs.append(crash_job("crashbig%d" % i, seed * 100 + 50 + i, "crashbig", 1, 12 if q else 20, av, disk=3400,
                                   extra=["-loss", "1", "-cont", "2", "-nested", "1", "-stride", "3" if q else "1"]))
+        # the server on util/timed_disk (what `go-nfsd -stats` runs on) over a disk whose barriers take a while: the write-ahead
+        # discipline of the stream that reaches the disk (WalTrace) and the crash images are those of that configuration
+        for i in range(2 if q else 8):
+            jobs.append(crash_job("crashtimed%d" % i, seed * 100 + 70 + i, "crash", 1 if q else 2, 30 if q else 45, av, disk=3200,
+                                  extra=["-loss", "2", "-cont", "1", "-nested", "0", "-timed"]))
         for jb in jobs:   # a recovered image whose structure is rejected cannot "keep serving further operations correctly"
             jb["also"] = ["C01"]
         jobs.append(probe_job(prop, av))
